@@ -1372,3 +1372,434 @@ Section NoOther.
   Qed.
 End NoOther.
 
+(* ================================================================== one CELL per period *)
+(* In the model a series carries its shape and its cells separately; InvD ties them: every stored series holds exactly
+   len(span) cells.  It is preserved by every operation whose ndarray operands are themselves consistent (as many cells as
+   their shape says - true of every real ndarray). *)
+Definition InvD (s : state) : Prop := forall x v, assoc x (vars s) = Some v -> length (vdata v) = n_of s.
+
+Lemma invD_unfolded s : InvD s <-> (forall x v, assoc x (vars s) = Some v -> length (vdata v) = length (span s)).
+Proof. split; intros H; exact H. Qed.
+
+Fixpoint wf_operand (o : operand) : Prop :=
+  match o with
+  | OArr sh _ cells => length cells = prod_shape sh
+  | OSeq _ items => (fix go (l : list operand) : Prop := match l with [] => True | x :: r => wf_operand x /\ go r end) items
+  | _ => True
+  end.
+
+Definition wf_items (l : list operand) : Prop :=
+  (fix go (l : list operand) : Prop := match l with [] => True | x :: r => wf_operand x /\ go r end) l.
+
+Lemma wf_seq k items : wf_operand (OSeq k items) = wf_items items.
+Proof. reflexivity. Qed.
+
+Lemma wf_items_forall l : wf_items l -> Forall wf_operand l.
+Proof. induction l as [|x r IH]; intros H; constructor; [exact (proj1 H)|apply IH; exact (proj2 H)]. Qed.
+
+Definition wf_key_op (o : op) : Prop :=
+  match o with
+  | AddVariable _ v _ | SetAttr _ v _ | SetItem _ v | AddAttribute _ v => wf_operand v
+  | ReplaceValues kvs => Forall (fun kv => wf_operand (snd kv)) kvs
+  end.
+
+Definition consistent (x : list nat * list pyval) : Prop := length (snd x) = prod_shape (fst x).
+
+Lemma concat_same_shape sh0 xs :
+  Forall consistent xs -> all_eq_shape sh0 xs = true -> length (List.concat (map snd xs)) = length xs * prod_shape sh0.
+Proof.
+  induction xs as [|[sh c] xs IH]; intros F A; [reflexivity|].
+  inversion F as [|? ? Hc Fr]; subst. unfold all_eq_shape in A. simpl in A.
+  destruct (list_eq_dec Nat.eq_dec sh sh0) as [->|]; [|discriminate]. simpl in A.
+  simpl. rewrite app_length, (IH Fr A). unfold consistent in Hc. simpl in Hc. rewrite Hc. reflexivity.
+Qed.
+
+Lemma stack_consistent xs r : Forall consistent xs -> stack xs = Ret r -> consistent r.
+Proof.
+  unfold stack. destruct xs as [|[sh0 c0] rest]; intros F H.
+  - inversion H; subst. reflexivity.
+  - destruct (all_eq_shape sh0 ((sh0, c0) :: rest)) eqn:A; inversion H; subst.
+    unfold consistent. cbn [fst snd].
+    change (c0 ++ List.concat (map snd rest)) with (List.concat (map snd ((sh0, c0) :: rest))).
+    rewrite (concat_same_shape sh0 _ F A). reflexivity.
+Qed.
+
+Lemma go_list_consistent items : Forall (fun o => forall r, as_array o = Ret r -> consistent r) items ->
+  forall xs, go_list items = Ret xs -> Forall consistent xs.
+Proof.
+  induction 1 as [|x r Hx Hr IHr]; intros xs G.
+  - inversion G; subst. constructor.
+  - rewrite go_list_cons in G. destruct (as_array x) as [y|e] eqn:A; [|discriminate].
+    destruct (go_list r) as [ys|e] eqn:G2; [|discriminate]. inversion G; subst.
+    constructor; [apply Hx; reflexivity|apply IHr; reflexivity].
+Qed.
+
+Lemma as_array_consistent o : wf_operand o -> forall r, as_array o = Ret r -> consistent r.
+Proof.
+  induction o as [v|k items IH|a b c|sh dt cells] using operand_ind'; intros W r H.
+  - inversion H; subst. reflexivity.
+  - rewrite as_array_seq in H. destruct (go_list items) as [xs|e] eqn:G; [|discriminate].
+    apply (stack_consistent xs r); [|exact H].
+    apply (go_list_consistent items); [|exact G].
+    rewrite wf_seq in W. apply wf_items_forall in W.
+    clear - IH W. induction IH as [|x r Hx Hr IHr]; constructor.
+    + inversion W; subst. intros r0 A. apply Hx; assumption.
+    + inversion W; subst. apply IHr. assumption.
+  - simpl in H. inversion H; subst. unfold consistent. simpl. rewrite map_length. lia.
+  - simpl in H. inversion H; subst. exact W.
+Qed.
+
+Lemma cast_all_length f cs cs' : cast_all f cs = Ret cs' -> length cs' = length cs.
+Proof.
+  revert cs'. induction cs as [|c cs IH]; intros cs' H; simpl in H; [inversion H; reflexivity|].
+  destruct (f c); [|discriminate]. destruct (cast_all f cs) as [r|]; [|discriminate].
+  inversion H; subst. simpl. rewrite (IH r eq_refl). reflexivity.
+Qed.
+
+Lemma write_cells_length f ps : forall cs d, length (fst (write_cells f ps cs d)) = length d.
+Proof.
+  induction ps as [|p ps IH]; intros cs d; simpl; [reflexivity|].
+  destruct cs as [|c cs]; [reflexivity|]. destruct (f c); [|reflexivity]. rewrite IH. apply upd_length.
+Qed.
+
+Lemma prod_strip1 sh : prod_shape (strip1 sh) = prod_shape sh.
+Proof.
+  induction sh as [|a r IH]; [reflexivity|].
+  destruct a as [|[|a]]; [reflexivity| |reflexivity].
+  destruct r as [|b r']; [reflexivity|].
+  change (strip1 (1 :: b :: r')) with (strip1 (b :: r')). rewrite IH. unfold prod_shape. simpl. lia.
+Qed.
+
+Lemma bcast_arr_length k sh cells cs :
+  length cells = prod_shape sh -> bcast_arr k sh cells = Some cs -> length cs = k.
+Proof.
+  intros L. unfold bcast_arr. rewrite <- prod_strip1 in L.
+  destruct (strip1 sh) as [|d [|d2 r]]; try discriminate.
+  - destruct cells as [|c [|c2 r]]; try discriminate. intros H. inversion H. apply repeat_length.
+  - destruct (Nat.eqb d k) eqn:E.
+    + apply Nat.eqb_eq in E. intros H. inversion H; subst. rewrite L. unfold prod_shape. simpl. lia.
+    + destruct (Nat.eqb d 1); [|discriminate]. destruct cells as [|c [|c2 r]]; try discriminate.
+      intros H. inversion H. apply repeat_length.
+Qed.
+
+Section DataLength.
+  Variable pycast : dtype -> pyval -> outcome pyval.
+  Variable arrcast : dtype -> dtype -> pyval -> outcome pyval.
+  Variable infer : list pyval -> dtype.
+  Variable astype_dt : dtype -> list pyval -> dreq -> dtype.
+  Variable itemseq_exn : dtype -> exn.
+
+  Notation assign_inplace := (assign_inplace pycast arrcast).
+  Notation assign_item := (assign_item pycast arrcast itemseq_exn).
+  Notation setattr_var := (setattr_var pycast arrcast).
+  Notation set_rows_arr := (set_rows_arr pycast arrcast).
+  Notation set_rows_full := (set_rows_full pycast arrcast infer).
+  Notation values_setter := (values_setter pycast arrcast infer).
+  Notation obj_setattr := (obj_setattr pycast arrcast infer).
+  Notation add_attribute := (add_attribute pycast arrcast infer).
+  Notation setattr := (setattr pycast arrcast infer).
+  Notation setitem := (setitem pycast arrcast infer itemseq_exn).
+  Notation replace_values := (replace_values pycast arrcast infer itemseq_exn).
+  Notation base_add_variable := (base_add_variable pycast arrcast infer astype_dt).
+  Notation add_variable := (add_variable pycast arrcast infer astype_dt).
+  Notation step := (step pycast arrcast infer astype_dt itemseq_exn).
+  Notation run := (run pycast arrcast infer astype_dt itemseq_exn).
+  Notation natural := (natural pycast infer).
+
+  Lemma invD_set s name v' :
+    InvD s -> length (vdata v') = n_of s -> InvD (set_vars s (assoc_set name v' (vars s))).
+  Proof.
+    intros D L x v. simpl. destruct (string_dec x name) as [->|Ne].
+    - rewrite assoc_set_eq. intros E. inversion E; subst. exact L.
+    - rewrite (assoc_set_neq _ _ _ _ Ne). apply D.
+  Qed.
+
+  Lemma assign_inplace_length v ps value : length (vdata (fst (assign_inplace v ps value))) = length (vdata v).
+  Proof.
+    unfold Container.assign_inplace.
+    destruct value as [c|k items|a b c|sh dt cells].
+    - destruct (pycast (vdtype v) c); simpl; [apply write_cells_length|reflexivity].
+    - destruct (as_array (OSeq k items)) as [[sh cells]|e]; [|reflexivity].
+      destruct (list_eq_dec Nat.eq_dec sh [length ps]) as [E|N].
+      + pose proof (write_cells_length (pycast (vdtype v)) ps cells (vdata v)) as W.
+        destruct (write_cells (pycast (vdtype v)) ps cells (vdata v)) as [d eo]. exact W.
+      + destruct (negb (Nat.eqb (length sh) 1)); [reflexivity|].
+        destruct (cast_all (pycast (vdtype v)) cells) as [cells'|e]; [|reflexivity].
+        destruct (bcast_seq (length ps) sh cells'); simpl; [apply write_cells_length|reflexivity].
+    - destruct (as_array (ORange a b c)) as [[sh cells]|e]; [|reflexivity].
+      destruct (list_eq_dec Nat.eq_dec sh [length ps]) as [E|N].
+      + pose proof (write_cells_length (pycast (vdtype v)) ps cells (vdata v)) as W.
+        destruct (write_cells (pycast (vdtype v)) ps cells (vdata v)) as [d eo]. exact W.
+      + destruct (negb (Nat.eqb (length sh) 1)); [reflexivity|].
+        destruct (cast_all (pycast (vdtype v)) cells) as [cells'|e]; [|reflexivity].
+        destruct (bcast_seq (length ps) sh cells'); simpl; [apply write_cells_length|reflexivity].
+    - destruct (bcast_arr (length ps) sh cells) as [cs|]; [|reflexivity].
+      pose proof (write_cells_length (arrcast dt (vdtype v)) ps cs (vdata v)) as W.
+      destruct (write_cells (arrcast dt (vdtype v)) ps cs (vdata v)) as [d eo]. exact W.
+  Qed.
+
+  Lemma assign_item_length v p value : length (vdata (fst (assign_item v p value))) = length (vdata v).
+  Proof.
+    unfold Container.assign_item.
+    destruct value as [c|k items|a b c|sh dt cells].
+    - destruct (pycast (vdtype v) c); simpl; [apply upd_length|reflexivity].
+    - destruct (vdtype v); simpl; try reflexivity. apply upd_length.
+    - destruct (vdtype v); simpl; try reflexivity. apply upd_length.
+    - assert (DEF : length (vdata (fst (match vdtype v with
+                         | DBool => match truthy (OArr sh dt cells) with
+                                    | Ret b => (with_data v (upd p (PBool b) (vdata v)), None)
+                                    | Raise e => (v, Some e)
+                                    end
+                         | _ => (v, Some ValueError)
+                         end))) = length (vdata v)).
+      { destruct (vdtype v); try reflexivity. destruct (truthy (OArr sh dt cells)); simpl; [apply upd_length|reflexivity]. }
+      destruct sh as [|d0 sh']; [|exact DEF].
+      destruct cells as [|c [|c2 r]]; try exact DEF.
+      destruct (arrcast dt (vdtype v) c); simpl; [apply upd_length|reflexivity].
+  Qed.
+
+  Lemma setattr_var_invD name value s : wf_operand value -> InvD s -> InvD (fst (setattr_var name value s)).
+  Proof.
+    intros W D. unfold Container.setattr_var.
+    destruct (assoc name (vars s)) as [v|] eqn:A; [|exact D].
+    destruct (is_sequence value).
+    - destruct (as_array value) as [[sh cells]|e] eqn:AA; [|exact D].
+      destruct (cast_all (pycast (vdtype v)) cells) as [cells'|e] eqn:C; [|exact D].
+      destruct (negb (Nat.eqb (length sh) 1) || negb (Nat.eqb (hd 0 sh) (n_of s)))%bool eqn:G; [exact D|].
+      apply shape_singleton in G. subst sh. simpl. apply invD_set; [exact D|]. simpl.
+      rewrite (cast_all_length _ _ _ C). pose proof (as_array_consistent value W _ AA) as K. unfold consistent in K. simpl in K.
+      rewrite K. unfold prod_shape. simpl. lia.
+    - destruct (vshape v) as [|m [|m' r]]; try exact D.
+      pose proof (assign_inplace_length v (seq 0 m) value) as L.
+      destruct (assign_inplace v (seq 0 m) value) as [v' eo]. simpl in *. apply invD_set; [exact D|].
+      rewrite L. apply (D name). exact A.
+  Qed.
+
+  Lemma natural_consistent value d sh cells :
+    wf_operand value -> natural value = Ret (d, sh, cells) -> length cells = prod_shape sh.
+  Proof.
+    intros W. unfold Container.natural.
+    destruct (as_array value) as [[sh0 cells0]|e] eqn:AA; [|discriminate].
+    pose proof (as_array_consistent value W _ AA) as K. unfold consistent in K. simpl in K.
+    destruct value; try (destruct (cast_all (pycast (infer cells0)) cells0) as [cs|] eqn:C; [|discriminate];
+                         intros H; inversion H; subst; rewrite (cast_all_length _ _ _ C); exact K).
+    intros H. inversion H; subst. exact K.
+  Qed.
+
+  Lemma set_rows_arr_invD src nms : forall rws s, InvD s -> InvD (fst (set_rows_arr src nms rws s)).
+  Proof.
+    induction nms as [|x nms IH]; intros rws s D; simpl; [exact D|].
+    destruct rws as [|r rr]; [exact D|].
+    destruct (assoc x (vars s)) as [v|]; [|exact D].
+    destruct (cast_all (arrcast src (vdtype v)) r) as [r'|e]; [|exact D].
+    assert (W : wf_operand (OArr [length r'] (vdtype v) r')) by (simpl; unfold prod_shape; simpl; lia).
+    pose proof (setattr_var_invD x _ s W D) as S.
+    destruct (setattr_var x (OArr [length r'] (vdtype v) r') s) as [s' [u|e]]; simpl in *; [apply IH; exact S|exact S].
+  Qed.
+
+  Lemma set_rows_full_invD value nms : wf_operand value -> forall s, InvD s -> InvD (fst (set_rows_full nms value s)).
+  Proof.
+    intros Wv. induction nms as [|x nms IH]; intros s D; simpl; [exact D|].
+    destruct (assoc x (vars s)) as [v|]; [|exact D].
+    destruct (natural value) as [[[src sh] cells]|e] eqn:N; [|exact D].
+    destruct (bcast_arr (prod_shape (vshape v)) sh cells) as [cs|] eqn:B; [|exact D].
+    destruct (cast_all (arrcast src (vdtype v)) cs) as [cs'|e] eqn:C; [|exact D].
+    assert (W : wf_operand (OArr (vshape v) (vdtype v) cs')).
+    { simpl. rewrite (cast_all_length _ _ _ C). apply (bcast_arr_length _ sh cells); [|exact B].
+      eapply natural_consistent; eassumption. }
+    pose proof (setattr_var_invD x _ s W D) as S.
+    destruct (setattr_var x (OArr (vshape v) (vdtype v) cs') s) as [s' [u|e]]; simpl in *; [apply IH; exact S|exact S].
+  Qed.
+
+  Lemma values_setter_invD value s : wf_operand value -> InvD s -> InvD (fst (values_setter value s)).
+  Proof.
+    intros W D. unfold Container.values_setter.
+    destruct value as [c|k items|a b c|sh dt cells]; try (apply set_rows_full_invD; assumption).
+    destruct (values_shape s) as [vsh|e]; [|exact D].
+    destruct (list_eq_dec Nat.eq_dec sh vsh); [|exact D].
+    destruct sh as [|r [|m [|q t]]]; try exact D.
+    apply set_rows_arr_invD. exact D.
+  Qed.
+
+  Lemma obj_setattr_invD name value s : wf_operand value -> InvD s -> InvD (fst (obj_setattr name value s)).
+  Proof.
+    intros W D. unfold Container.obj_setattr.
+    destruct (String.eqb name "strict"); [destruct (truthy value); exact D|].
+    destruct (String.eqb name "values"); [apply values_setter_invD; assumption|].
+    destruct (String.eqb name "size" || String.eqb name "nbytes")%bool; [exact D|].
+    match goal with |- context [if ?c then _ else _] => destruct c end; exact D.
+  Qed.
+
+  Lemma add_attribute_invD name value s : wf_operand value -> InvD s -> InvD (fst (add_attribute name value s)).
+  Proof.
+    intros W D. unfold Container.add_attribute.
+    destruct (mem name (index s)); [exact D|].
+    destruct (reg_mem name (registry s)); [exact D|].
+    pose proof (obj_setattr_invD name value s W D) as O.
+    destruct (obj_setattr name value s) as [s' [u|e]]; simpl in *; exact O.
+  Qed.
+
+  Lemma setattr_invD name value hint s : wf_operand value -> InvD s -> InvD (fst (setattr name value hint s)).
+  Proof.
+    intros W D. unfold Container.setattr.
+    match goal with |- context [if ?c then _ else _] => destruct c end.
+    - destruct (alternatives hint (row_names s)) as [|a [|b r]]; exact D.
+    - destruct (negb (mem name (index s))).
+      + destruct (reg_mem name (registry s)); [apply obj_setattr_invD | apply add_attribute_invD]; assumption.
+      + apply setattr_var_invD; assumption.
+  Qed.
+
+  Lemma setitem_invD k value s : wf_operand value -> InvD s -> InvD (fst (setitem k value s)).
+  Proof.
+    intros W D. unfold Container.setitem. destruct k as [name|name l|name a b st| |]; try exact D.
+    - destruct (negb (mem name (index s))); [exact D | apply setattr_invD; assumption].
+    - destruct (locate (span s) l) as [p|e]; [|exact D].
+      destruct (assoc name (vars s)) as [v|] eqn:A.
+      + pose proof (assign_item_length v p value) as L.
+        destruct (Container.assign_item pycast arrcast itemseq_exn v p value) as [v' e]. simpl in *.
+        apply invD_set; [exact D|]. rewrite L. apply (D name). exact A.
+      + destruct (hidden_lookup name s); try exact D.
+        destruct (Nat.ltb p (length (registry s))); exact D.
+    - destruct (resolve_slice (span s) a b st) as [[[sl el] stp]|e]; [|exact D].
+      destruct (assoc name (vars s)) as [v|] eqn:A.
+      + destruct (vshape v) as [|m [|m' r]]; try exact D.
+        destruct (slice_positions m sl el stp) as [ps|]; [|exact D].
+        pose proof (assign_inplace_length v ps value) as L.
+        destruct (Container.assign_inplace pycast arrcast v ps value) as [v' e]. simpl in *.
+        apply invD_set; [exact D|]. rewrite L. apply (D name). exact A.
+      + destruct (hidden_lookup name s); exact D.
+  Qed.
+
+  Lemma replace_values_invD kvs : Forall (fun kv => wf_operand (snd kv)) kvs -> forall s, InvD s -> InvD (fst (replace_values kvs s)).
+  Proof.
+    induction 1 as [|[k v] kvs Wv Wr IH]; intros s D; [exact D|].
+    change (replace_values ((k, v) :: kvs) s) with
+      (match setitem (KName k) v s with (s1, Ret _) => replace_values kvs s1 | (s1, Raise e1) => (s1, Raise e1) end).
+    pose proof (setitem_invD (KName k) v s Wv D) as S.
+    destruct (setitem (KName k) v s) as [s' [u|e]]; simpl in *; [apply IH; exact S|exact S].
+  Qed.
+
+  Lemma base_add_variable_invD name value dt s : wf_operand value -> InvD s -> InvD (fst (base_add_variable name value dt s)).
+  Proof.
+    intros W D. unfold Container.base_add_variable.
+    destruct (mem name (index s)); [exact D|].
+    assert (FIRST : forall d0 m0 cells0,
+      (if is_sequence value
+       then match natural value with
+            | Raise e => Raise e
+            | Ret (d, sh, cells) => Ret (d, prod_shape sh, cells)
+            end
+       else match natural value with
+            | Raise e => Raise e
+            | Ret (d, sh, cells) => match bcast_arr (n_of s) sh cells with
+                                    | None => Raise ValueError
+                                    | Some cs => Ret (d, n_of s, cs)
+                                    end
+            end) = Ret (d0, m0, cells0) -> length cells0 = m0).
+    { intros d0 m0 cells0. destruct (is_sequence value); destruct (natural value) as [[[d sh] cells]|e] eqn:N; try discriminate.
+      - intros H. inversion H; subst. eapply natural_consistent; eassumption.
+      - destruct (bcast_arr (n_of s) sh cells) as [cs|] eqn:B; [|discriminate]. intros H. inversion H; subst.
+        apply (bcast_arr_length _ sh cells); [|exact B]. eapply natural_consistent; eassumption. }
+    match goal with |- context [match ?x with Ret _ => _ | Raise _ => _ end] => destruct x as [[[d0 m0] cells0]|e] eqn:F end; [|exact D].
+    clear F. pose proof (FIRST d0 m0 cells0 eq_refl) as F.
+    destruct dt as [r|].
+    - destruct (cast_all (arrcast d0 (astype_dt d0 cells0 r)) cells0) as [cs|e] eqn:C; [|exact D].
+      destruct (negb (Nat.eqb m0 (n_of s))) eqn:G; [exact D|].
+      apply negb_false_iff, Nat.eqb_eq in G. simpl.
+      intros x v. simpl. destruct (string_dec x name) as [->|Ne].
+      + rewrite assoc_set_eq. intros E. inversion E; subst. simpl. rewrite (cast_all_length _ _ _ C). unfold n_of in *. simpl. lia.
+      + rewrite (assoc_set_neq _ _ _ _ Ne). apply D.
+    - destruct (negb (Nat.eqb m0 (n_of s))) eqn:G; [exact D|].
+      apply negb_false_iff, Nat.eqb_eq in G. simpl.
+      intros x v. simpl. destruct (string_dec x name) as [->|Ne].
+      + rewrite assoc_set_eq. intros E. inversion E; subst. simpl. unfold n_of in *. simpl. lia.
+      + rewrite (assoc_set_neq _ _ _ _ Ne). apply D.
+  Qed.
+
+  Lemma add_variable_invD name value dt s : wf_operand value -> InvD s -> InvD (fst (add_variable name value dt s)).
+  Proof.
+    intros W D. unfold Container.add_variable.
+    destruct (kind s); [apply base_add_variable_invD; assumption| |];
+      (pose proof (base_add_variable_invD name value (match dt with None => dflt s | Some _ => dt end) s W D) as B;
+       destruct (base_add_variable name value (match dt with None => dflt s | Some _ => dt end) s) as [s' [u|e]]; simpl in *; exact B).
+  Qed.
+
+  Theorem step_preserves_invD o s : wf_key_op o -> InvD s -> InvD (fst (step o s)).
+  Proof.
+    destruct o as [name v dt|name v hint|k v|kvs|name v]; simpl; intros W D.
+    - apply add_variable_invD; assumption.
+    - apply setattr_invD; assumption.
+    - apply setitem_invD; assumption.
+    - apply replace_values_invD; assumption.
+    - apply add_attribute_invD; assumption.
+  Qed.
+
+  (* through ANY history of operations with consistent ndarray operands: every series holds exactly one cell per period *)
+  Theorem reachable_invD ops : Forall wf_key_op ops -> forall s, InvD s -> InvD (run ops s).
+  Proof.
+    induction 1 as [|o ops Wo Wr IH]; intros s D; simpl; [exact D|].
+    apply IH. apply step_preserves_invD; assumption.
+  Qed.
+End DataLength.
+
+Theorem invD_init_vc sp st : InvD (init_vc sp st).
+Proof. intros x v E. discriminate E. Qed.
+
+Lemma assoc_In' {A} x (v : A) a : assoc x a = Some v -> In (x, v) a.
+Proof.
+  induction a as [|[k w] a IH]; simpl; [discriminate|].
+  destruct (String.eqb x k) eqn:E.
+  - apply String.eqb_eq in E. subst. intros H. inversion H. left. reflexivity.
+  - intros H. right. apply IH. exact H.
+Qed.
+
+Section DataLengthInit.
+  Variable pycast : dtype -> pyval -> outcome pyval.
+  Variable arrcast : dtype -> dtype -> pyval -> outcome pyval.
+  Variable infer : list pyval -> dtype.
+  Variable astype_dt : dtype -> list pyval -> dreq -> dtype.
+  Notation init_model := (init_model pycast arrcast infer astype_dt).
+  Notation init_vars := (init_vars pycast arrcast infer astype_dt).
+  Notation add_attribute := (add_attribute pycast arrcast infer).
+  Notation base_add_variable := (base_add_variable pycast arrcast infer astype_dt).
+
+  Lemma bind_invD (r : res) (f : state -> res) :
+    InvD (fst r) -> (forall s', InvD s' -> InvD (fst (f s'))) -> InvD (fst (bind r f)).
+  Proof. intros R F. unfold bind. destruct r as [s' [u|e]]; simpl in *; [apply F; exact R|exact R]. Qed.
+
+  Lemma init_vars_invD nms ivs default d :
+    wf_operand default -> Forall (fun kv : string * operand => wf_operand (snd kv)) ivs ->
+    forall s, InvD s -> InvD (fst (init_vars nms ivs default d s)).
+  Proof.
+    intros Wd Wi. induction nms as [|x nms IH]; intros s D; simpl; [exact D|].
+    assert (W : wf_operand (match assoc x ivs with Some v => v | None => default end)).
+    { destruct (assoc x ivs) as [v|] eqn:A; [|exact Wd]. apply assoc_In' in A.
+      rewrite Forall_forall in Wi. exact (Wi _ A). }
+    pose proof (base_add_variable_invD pycast arrcast infer astype_dt x _ (Some d) s W D) as B.
+    destruct (base_add_variable x (match assoc x ivs with Some v => v | None => default end) (Some d) s) as [s' [u|e]];
+      simpl in *; [apply IH; exact B|exact B].
+  Qed.
+
+  Lemma wf_scalars (l : list string) : wf_operand (OSeq KList (map (fun x => OScalar (PStr x)) l)).
+  Proof. rewrite wf_seq. induction l as [|x l IH]; simpl; [exact I|split; [exact I|exact IH]]. Qed.
+
+  (* a constructed model / linker holds one cell per period in every series (keyword values being consistent operands) *)
+  Theorem invD_init_model k sp st d default NAMES ivs :
+    wf_operand default -> Forall (fun kv : string * operand => wf_operand (snd kv)) ivs ->
+    InvD (fst (init_model k sp st d default NAMES ivs)).
+  Proof.
+    intros Wd Wi. unfold Container.init_model.
+    apply bind_invD; [apply add_attribute_invD; [exact I|intros x v E; discriminate E]|]. intros s1 D1.
+    apply bind_invD; [apply base_add_variable_invD; [exact I|exact D1]|]. intros s2 D2.
+    apply bind_invD; [apply base_add_variable_invD; [exact I|exact D2]|]. intros s3 D3.
+    destruct (negb (dup_free NAMES)); [exact D3|].
+    match goal with |- context [if ?c then _ else _] => destruct c end; [exact D3|].
+    apply bind_invD; [apply add_attribute_invD; [apply wf_scalars|exact D3]|]. intros s4 D4.
+    apply bind_invD; [apply init_vars_invD; [exact Wd|exact Wi|exact D4]|]. intros s5 D5.
+    apply bind_invD; [apply add_attribute_invD; [exact I|exact D5]|]. intros s6 D6.
+    apply bind_invD; [apply add_attribute_invD; [exact I|exact D6]|]. intros s7 D7.
+    apply bind_invD; [apply add_attribute_invD; [exact I|exact D7]|]. intros s8 D8.
+    apply bind_invD; [apply add_attribute_invD; [exact I|exact D8]|]. intros s9 D9.
+    destruct k; [exact D9|apply add_attribute_invD; [exact I|exact D9]|exact D9].
+  Qed.
+End DataLengthInit.
